@@ -475,7 +475,7 @@ any edit to one of them makes this obligation fail and starts a search for a fai
 theorem code_matches_model :
     Gen.HostSet.setAdd =
       ["if len(hosts) == 0 { return }",
-      "for _, host := range hosts { if old, ok := set.all[host.Addr]; ok && old != host { if IsEqual(old, host) { continue } set.dropHealthy(old) old.markRemoved() } set.all[host.Addr] = host if host.IsHealthy() { set.addToHealthy(host) } }",
+      "for _, host := range hosts { if old, ok := set.all[host.Addr]; ok && old != host { if IsEqual(old, host) { continue } set.dropHealthy(old) old.markRemoved() } set.all[host.Addr] = host if host.IsHealthy() { set.putHealthy(host) } }",
       "set.buildHealthyCache()"] ∧
     Gen.HostSet.setRemove =
       ["if len(hosts) == 0 { return }",
@@ -487,6 +487,8 @@ theorem code_matches_model :
       ["if len(host) == 0 { return }",
       "for _, h := range host { if h == nil { continue } switch h.Type { case TypeMain: set.healthyMain[h.Addr] = h case TypeBackup: set.healthyBackup[h.Addr] = h default: continue } }",
       "set.buildHealthyCache()"] ∧
+    Gen.HostSet.putHealthy =
+      ["switch h.Type { case TypeMain: set.healthyMain[h.Addr] = h case TypeBackup: set.healthyBackup[h.Addr] = h }"] ∧
     Gen.HostSet.removeFromHealthy =
       ["if len(host) == 0 { return }",
       "for _, h := range host { if h == nil { continue } switch h.Type { case TypeMain: delete(set.healthyMain, h.Addr) case TypeBackup: delete(set.healthyBackup, h.Addr) default: continue } }",
@@ -525,8 +527,9 @@ theorem code_matches_model :
     Gen.HostSet.replaceAll =
       ["set.Lock()",
       "defer set.Unlock()",
-      "for _, host := range set.all { set.remove(host) }",
-      "set.add(hosts...)"] ∧
+      "for addr, host := range set.all { delete(set.all, addr) host.markRemoved() set.dropHealthy(host) }",
+      "set.add(hosts...)",
+      "set.buildHealthyCache()"] ∧
     Gen.HostSet.setHealthyFlag =
       ["stats.successfulCount.Store(0)",
       "stats.failedCount.Store(0)",
@@ -552,7 +555,7 @@ theorem code_matches_model :
       "go func() { for _, host := range hosts { hostCh <- host } close(hostCh) }()",
       "for i := 0; i < concurrency; i++ { wg.Add(1) go func() { for host := range hostCh { m.checkHostAndUpdateStatus(host) } wg.Done() }() }",
       "wg.Wait()"] := by
-  refine ⟨rfl, rfl, rfl, rfl, rfl, rfl, rfl, rfl, rfl, rfl, rfl, rfl, rfl, rfl, rfl, rfl, rfl, rfl⟩
+  refine ⟨rfl, rfl, rfl, rfl, rfl, rfl, rfl, rfl, rfl, rfl, rfl, rfl, rfl, rfl, rfl, rfl, rfl, rfl, rfl⟩
 
 end SamVerif.Props.C15
 
